@@ -29,7 +29,7 @@ ASSUMPTIONS = [
 COMPONENTS = {
     "real": ["dali.driver.hid.tridonic/hasseb", "dali.driver.serial.DriverLubaRs232/DriverSCIRS232",
              "dali.driver.daliserver.DaliServer", "dali.driver.atxled.SyncDaliHatDriver", "asyncio (CPython)"],
-    "stub": ["VirtualLoop selector/clock", "os/glob/random (hid)", "serial_asyncio (serial)",
+    "stub": ["asyncio.wait_for of CPython 3.8-3.11 (transcribed, sim/legacy_asyncio.py) on ~25 % of the asyncio-driver runs", "VirtualLoop selector/clock", "os/glob/random (hid)", "serial_asyncio (serial)",
              "socket (daliserver)", "serial.Serial + time (atxled)", "gateway firmware, bus, units, other masters"],
 }
 PROBES = ["late-answer", "foreign-answer-before-own", "error-outcome", "silent-outcome", "value-outcome",
@@ -42,6 +42,11 @@ def _unique_outs(r, plan):
     """Re-draw answer values so that every value in the run is unique."""
     pool = list(range(1, 255))
     r.shuffle(pool)
+    # the two ends of the value range are drawn first in most runs (0 is
+    # falsy, 255 doubles as MASK / "framing error" in several protocols)
+    ends = [v for v in (0, 255) if r.random() < 0.6]
+    r.shuffle(ends)
+    pool.extend(ends)
     for c in plan["callers"]:
         for op in c["ops"]:
             for k, o in list(op.get("outs", {}).items()):
@@ -133,14 +138,35 @@ def stale_site(rr, u, spec, raw, occurrence=0):
     when the victim's command was written (a flush at that moment would have
     removed it), or did it arrive afterwards (matching by arrival order only)?"""
     if raw is None:
-        # answer lost: was another master's error frame taken for our confirmation?
-        for s_ in rr.dev.sends:
+        # answer lost: was an error frame that arrived between a write and its
+        # confirmation taken for that confirmation (the SCI protocol gives the
+        # driver nothing to tell them apart)?  The real confirmation then stays
+        # behind and, if the next command is written before it arrives (i.e.
+        # after that command's flush), shifts that one too: walk back along
+        # such a chain.  An item that was already lying there when the victim's
+        # chain started is different: the flush at the start of every send has
+        # to remove it.
+        sends = [s_ for s_ in rr.dev.sends if "t_us" in s_]
+        errors = getattr(rr.dev, "foreign_errors", [])
+        k, n = None, 0
+        for i, s_ in enumerate(sends):
             if s_["unit"] == u and (s_.get("bits"), s_.get("value")) == (spec[0], spec[1]):
-                # (the shift caused by one consumed error frame persists for the
-                # following commands until an idle flush)
-                hi = s_.get("conf_arrival_us") or (s_["t_us"] + 200000)
-                if any(t <= hi for t in getattr(rr.dev, "foreign_errors", [])):
-                    return "error-frame-taken-as-confirmation"
+                if n <= occurrence:
+                    k = i
+                n += 1
+        if k is None:
+            return "plain"
+        while True:
+            s_ = sends[k]
+            tc = s_.get("conf_arrival_us") or (s_["t_us"] + 200000)
+            if any(s_["t_us"] <= t <= tc for t in errors):
+                return "error-frame-taken-as-confirmation"
+            if k == 0:
+                break
+            ptc = sends[k - 1].get("conf_arrival_us")
+            if ptc is None or ptc < s_["t_us"]:
+                break               # the predecessor's confirmation was there to be flushed / consumed
+            k -= 1
         return "plain"
     arr = getattr(rr.dev, "answer_arrivals", {}).get(raw.as_integer)
     t_write = None
